@@ -195,6 +195,28 @@ func runSink(o opts) error {
 			w.Add(sinkCase(sinkIn{rows, rem, ms}, "generated"))
 		}
 	}
+	if o.tier == "thorough" {
+		// exhaustive: rows over {"", a, bb, cccc}^<=4, every remaining 0..40, default label sizes
+		w.PerShard = 400
+		alpha := []string{"", "a", "bb", "cccc"}
+		var lists [][]string
+		var rec func(cur []string, depth int)
+		rec = func(cur []string, depth int) {
+			lists = append(lists, append([]string{}, cur...))
+			if depth == 4 {
+				return
+			}
+			for _, a := range alpha {
+				rec(append(cur, a), depth+1)
+			}
+		}
+		rec(nil, 0)
+		for _, rows := range lists {
+			for rem := uint32(0); rem <= 40; rem++ {
+				w.Add(sinkCase(sinkIn{rows, rem, [4]uint32{0, 7, 7, 14}}, "exhaustive"))
+			}
+		}
+	}
 	return w.Flush()
 }
 
